@@ -292,3 +292,7 @@ def run(ctx):
     n = 600 if ctx.tier == "quick" else 12000
     stream.run_stream(ctx, "frame", "harness.props.c14", "gen_cases", n, per_chunk=40,
                       canon_kw=dict(drop_zero=True))
+
+
+def replay(ctx, payload):
+    return stream.replay(ctx, payload, canon_kw=dict(drop_zero=True))
